@@ -228,15 +228,39 @@ func rawQueryAfterMutators(c *Ctx) {
 		c.R.Fail("query-read-after-mutators: CreateOperationContext calls no parameter mutator")
 		return
 	}
+	// a read is a load of RawParams.Query in CreateOperationContext itself, or a call of a helper of the package that performs one
+	var readsQuery func(h *ssa.Function, depth int) bool
+	readsQuery = func(h *ssa.Function, depth int) bool {
+		if h == nil || len(h.Blocks) == 0 || h.Pkg == nil || h.Pkg.Pkg.Path() != pkgExecutor || depth > 2 {
+			return false
+		}
+		for _, b := range h.Blocks {
+			for _, in := range b.Instrs {
+				if u, ok := in.(*ssa.UnOp); ok {
+					if fa, ok := u.X.(*ssa.FieldAddr); ok && isRawParamsField(fa, "Query") {
+						return true
+					}
+				}
+				if call, ok := in.(ssa.CallInstruction); ok && call.Common().StaticCallee() != h && readsQuery(call.Common().StaticCallee(), depth+1) {
+					return true
+				}
+			}
+		}
+		return false
+	}
 	n := 0
 	for _, b := range fn.Blocks {
 		for _, in := range b.Instrs {
-			u, ok := in.(*ssa.UnOp)
-			if !ok {
-				continue
+			isRead := false
+			if u, ok := in.(*ssa.UnOp); ok {
+				if fa, ok := u.X.(*ssa.FieldAddr); ok && isRawParamsField(fa, "Query") {
+					isRead = true
+				}
 			}
-			fa, ok := u.X.(*ssa.FieldAddr)
-			if !ok || !isRawParamsField(fa, "Query") {
+			if call, ok := in.(ssa.CallInstruction); ok && readsQuery(call.Common().StaticCallee(), 0) {
+				isRead = true
+			}
+			if !isRead {
 				continue
 			}
 			n++
